@@ -44,7 +44,7 @@ func c01AdvProp(t *testing.T, k *verifkit.Kit) func(c c17Case) error {
 				ifi := &cfg.Interfaces[i]
 				p := time.Duration(-1)
 				for j := range ifi.Plugins {
-					ifi.Plugins[j] = &vkPlug{Plugin: ifi.Plugins[j], st: &st, mu: &mu, prepared: &p, w: w.now}
+					ifi.Plugins[j] = &vkPlug{Plugin: ifi.Plugins[j], st: &st, idx: i, mu: &mu, prepared: &p, w: w.now}
 				}
 				w.fwd[ifi.Name] = st.Fwd
 			}
@@ -157,8 +157,10 @@ func c01AdvProp(t *testing.T, k *verifkit.Kit) func(c c17Case) error {
 		}
 		writes := w.writesCopy()
 		byName := map[string]rIface{}
-		for _, ri := range ref.Cfg.Interfaces {
+		idxOf := map[string]int{}
+		for i, ri := range ref.Cfg.Interfaces {
 			byName[ri.Name] = ri
+			idxOf[ri.Name] = i
 		}
 		wild, dep, nwrites := false, false, 0
 		for _, ri := range ref.Cfg.Interfaces {
@@ -177,7 +179,8 @@ func c01AdvProp(t *testing.T, k *verifkit.Kit) func(c c17Case) error {
 			if amb {
 				continue
 			}
-			s2 := st
+			s2 := stFor(st, idxOf[ri.Name])
+			s2.MAC = vkMACFor(ri.Name)
 			s2.Fwd, s2.NowNS = f, int64(x.Start)
 			want, wantErr := expectRA(ri, s2, epoch)
 			if wantErr {
